@@ -5,6 +5,7 @@ lemmas about the scanners of the header-style parser model.
 import DebInspector.Props.C06
 import DebInspector.Proofs.SplitJoin
 import DebInspector.Proofs.Deb822
+import DebInspector.Proofs.LinesAscii
 import DebInspector.Proofs.VersionPrint
 
 namespace Props.C06
@@ -81,43 +82,9 @@ end Props.C06
 /-! ## the line-tracking parser on well-formed documents -/
 
 namespace Props.C06
-open Py Model.Deb822
+open Py Model.Deb822 Proofs.LinesAscii Proofs.Deb822
 
 /-! ### the source lines of a rendered document -/
-
-def NoT (l : Str) : Prop := '\n' ∉ l ∧ '\r' ∉ l
-
-theorem splitLinesAsciiAux_prefix (l rest cur : Str) (cr : Bool) (h : NoT l) (hne : l ≠ []) :
-    splitLinesAsciiAux (l ++ rest) cur cr = splitLinesAsciiAux rest (l.reverse ++ cur) false := by
-  induction l generalizing cur cr with
-  | nil => exact absurd rfl hne
-  | cons c cs ih =>
-    have hn : c ≠ '\n' := fun e => h.1 (by simp [e])
-    have hr : c ≠ '\r' := fun e => h.2 (by simp [e])
-    have hcs : NoT cs := ⟨fun m => h.1 (List.mem_cons_of_mem _ m), fun m => h.2 (List.mem_cons_of_mem _ m)⟩
-    cases cs with
-    | nil => simp [splitLinesAsciiAux, hn, hr]
-    | cons d ds =>
-      have := ih (c :: cur) false hcs (by simp)
-      have step : splitLinesAsciiAux (c :: (d :: ds ++ rest)) cur cr = splitLinesAsciiAux (d :: ds ++ rest) (c :: cur) false := by
-        rw [splitLinesAsciiAux]; simp [hn, hr]
-      rw [List.cons_append, step, this]; simp
-
-theorem splitLinesAscii_line (l rest : Str) (h : NoT l) :
-    splitLinesAscii (l ++ '\n' :: rest) = l :: splitLinesAscii rest := by
-  unfold splitLinesAscii
-  have hnl : ('\n' : Char) ≠ '\r' := by decide
-  cases l with
-  | nil => simp [splitLinesAsciiAux, hnl]
-  | cons c cs =>
-    rw [splitLinesAsciiAux_prefix (c :: cs) _ [] false h (by simp)]
-    simp [splitLinesAsciiAux, hnl]
-
-theorem splitLinesAscii_last (l : Str) (h : NoT l) (hne : l ≠ []) : splitLinesAscii l = [l] := by
-  unfold splitLinesAscii
-  have := splitLinesAsciiAux_prefix l [] [] false h hne
-  simp only [List.append_nil] at this
-  rw [this]; simp [splitLinesAsciiAux, hne]
 
 theorem splitLinesAscii_joinNl_nl (l : Str) (ls : List Str) (rest : Str) (h : ∀ x ∈ l :: ls, NoT x) :
     splitLinesAscii (joinNl (l :: ls) ++ '\n' :: rest) = (l :: ls) ++ splitLinesAscii rest := by
@@ -136,17 +103,6 @@ theorem splitLinesAscii_joinNl (l : Str) (ls : List Str) (h : ∀ x ∈ l :: ls,
   | cons m ms ih =>
     have e : joinNl (l :: m :: ms) = l ++ '\n' :: joinNl (m :: ms) := by simp [joinNl]
     rw [e, splitLinesAscii_line l _ (h l (by simp)), ih m (fun x hx => h x (by simp [hx])) (by simpa using hlast)]
-
-theorem splitLinesAscii_seps (sep : List Str) (rest : Str) (h : ∀ x ∈ sep, NoT x) :
-    splitLinesAscii ((sep.flatMap fun l => l ++ ['\n']) ++ rest) = sep ++ splitLinesAscii rest := by
-  induction sep with
-  | nil => rfl
-  | cons s ss ih =>
-    have e : ((s :: ss).flatMap fun l => l ++ ['\n']) ++ rest = s ++ '\n' :: ((ss.flatMap fun l => l ++ ['\n']) ++ rest) := by
-      simp [List.flatMap_cons]
-    rw [e, splitLinesAscii_line s _ (h s (by simp)), ih (fun x hx => h x (by simp [hx]))]
-    simp
-
 
 def paraLines (p : Para) : List Str := p.fields.flatMap fieldLines
 
@@ -212,39 +168,6 @@ theorem lastP_false_of {l : Str} (hne : l ≠ []) (h : lastP isSpace l = false) 
     cases cs with
     | nil => simpa [lastP] using h
     | cons d ds => simpa [lastP] using ih (by simp) (by simpa [lastP] using h)
-
-theorem go_cont_step (s : List Fld × Fld) (l : NL) (rest : List NL) (hnb : isBlank l.val = false)
-    (hc : isCont l.val = true) : go (some s) (l :: rest) = go (some (addLine s ⟨l.num, rstrip l.val⟩)) rest := by
-  conv => lhs; unfold go
-  simp only [hnb, Bool.false_eq_true, if_false, hc, if_true]
-
-theorem go_decl_step_open (s : List Fld × Fld) (l : NL) (rest : List NL) (hnb : isBlank l.val = false)
-    (hc : isCont l.val = false) (hd : isDecl l.val = true) :
-    go (some s) (l :: rest) = go (some (s.1 ++ [s.2], fromLine l)) rest := by
-  conv => lhs; unfold go
-  simp only [hnb, Bool.false_eq_true, if_false, hc, hd, if_true]
-
-theorem go_decl_step_none (l : NL) (rest : List NL) (hnb : isBlank l.val = false) (hd : isDecl l.val = true) :
-    go none (l :: rest) = go (some ([], fromLine l)) rest := by
-  conv => lhs; unfold go
-  simp only [hnb, Bool.false_eq_true, if_false, hd, if_true]
-
-theorem go_blank_none (l : NL) (rest : List NL) (hb : isBlank l.val = true) : go none (l :: rest) = go none rest := by
-  conv => lhs; unfold go
-  simp only [hb, if_true, flush, List.nil_append]
-
-/-- a blank line closes the paragraph when the next line is blank or a declaration, or there is none -/
-theorem go_blank_break (s : List Fld × Fld) (l : NL) (rest : List NL) (hb : isBlank l.val = true)
-    (hn : ∀ n ∈ rest.head?, isDecl n.val = true ∨ isBlank n.val = true) :
-    go (some s) (l :: rest) = flush (some s) ++ go none rest := by
-  conv => lhs; unfold go
-  simp only [hb, if_true]
-  cases rest with
-  | nil => rfl
-  | cons n tl =>
-    simp only
-    have := hn n (by simp)
-    rcases this with h | h <;> simp [h]
 
 /-- continuation lines are appended to the open field -/
 theorem go_conts (done : List Fld) (cur : Fld) (cs : List Str) (k : Nat) (rest : List NL)
